@@ -263,7 +263,7 @@ ROOT_PATTERNS = {
     'C06': r'::format|::parse|Display|LazyFormat',
     'C15': r'serialize|Serialize|Deserialize|visit_|TryFrom<format::NaiveDateTime>',
     'C08': r'::(add|sub)_(days|date|time|timestamp|interval_dt|interval_ym)\b',
-    'C18': r'::now|::parse|TryFrom<time::Time>',
+    'C18': r'::now\b|TryFrom<time::Time>',
     'C19': r'try_new|FormatParser',
 }
 
